@@ -19,14 +19,17 @@ func init() {
 			"R2 the checksummed transport computes and verifies the same checksum function over the same span in the same byte order and a mismatch (or a failed check) returns an error; encoder and decoder of each transport agree on the offsets of unit id, function code, data and transaction id; the role that numbers requests rejects a response with another transaction id; every index/slice of the framing functions is in range; " +
 			"R3 every index/slice/word access of the response decoders is proved in range from the check of the declared count against the data length; " +
 			"R4 every client method runs encode → write → read → decode, returns each transport error, checks the function code (itself or in the response decoder it returns through), and write methods compare the echoed data; " +
-			"R5 the number of values a response decoder returns, composed with the byte-count the server writes for a quantity c, equals c for every c in the protocol range (exhaustive evaluation of the two symbolic maps). " +
-			"Not decided: register values over all maps, serial timing, the length and protocol-id fields of the TCP header (not checked by the decoder).",
+			"R5 the number of values a response decoder returns, composed with the byte-count the server writes for a quantity c, equals c for every c in the protocol range (exhaustive evaluation of the two symbolic maps); " +
+			"R6 in the register file every store into the register list runs under the file's mutex in write mode and every read under it in either mode (followed from each exported function through the package's helpers with the lock mode held at the call), a store whose value or target derives from stored registers (a coil is one bit of a register) happens in the critical section in which they were read, the mutex is not re-acquired while held and not left held on return; " +
+			"R7 a lookup by address returns the value field of a stored register only for the element whose own address field was compared equal to the requested address (the list is in insertion order, so an element picked by position is some other register). " +
+			"Not decided: register values over all maps, schedules (only the lock discipline), which address an element is compared with when several are looked up at once, the coil-to-register arithmetic, serial timing, the length and protocol-id fields of the TCP header (not checked by the decoder).",
 		Assumptions: []string{
 			"where int has 32 bits, slice lengths are assumed to stay below 2^24 (no Modbus buffer comes near the wrap-around point)",
 			"io.Reader contract: Read returns 0 <= n <= len(p)",
 			"a callee changes caller-visible memory only through pointers passed to it",
 			"encoding/binary byte-order helpers and math.Float32bits/Float32frombits behave as documented",
 			"the CRC function itself (polynomial, table) is not judged, only that both sides use the same one",
+			"sync.Mutex / sync.RWMutex semantics; a register file built from a composite literal or new is not shared before the building function returns",
 		},
 		Run: runC19,
 	})
@@ -192,6 +195,8 @@ func runC19(c *kit.Ctx) {
 	c19R3(c, m)
 	c19R4(c, m)
 	c19R5(c, m)
+	c19R6(c, m)
+	c19R7(c, m)
 }
 
 // ---------------------------------------------------------------------------
